@@ -36,7 +36,14 @@ func HarnessC14() {
 		}
 		return "v" + itoa(j), nil
 	}
-	src, full := "", ""
+	// a context value much longer than the template source (output size thresholds)
+	hl := []int{0, 100, 3000}[verifChoice(3)]
+	hb := make([]byte, hl)
+	for i := range hb {
+		hb[i] = 'h'
+	}
+	head := string(hb)
+	src, full := "{{ head }}", head
 	for j := 1; j <= k; j++ {
 		t := string([]byte{'a' + byte(j)})
 		src += t + "{{ f(" + itoa(j) + ") }}"
@@ -55,7 +62,7 @@ func HarnessC14() {
 		tpl, err = set.FromString(src)
 	}
 	verifAssert(err == nil, "compile")
-	ctx := Context{"f": f}
+	ctx := Context{"f": f, "head": head}
 	faulty := F >= 1 && F <= k
 	verifObserve("faulty", faulty)
 
